@@ -182,7 +182,11 @@ func (w *worker) work(controller inputer, jobProvider *jobProvider, readBufferSi
 						inBuf = accumBuf
 					}
 
-					job.lastEventSeq = controller.In(sourceID, sourceName, pipeline.NewOffsets(lastOffset+scanned, offsets), inBuf, isVirgin, metadataInfo)
+					// a line the pipeline did not accept (empty, undecodable, already committed) yields EventSeqIDError:
+					// it must not make truncateJob forget the last accepted event, whose commit may still be on its way
+					if seq := controller.In(sourceID, sourceName, pipeline.NewOffsets(lastOffset+scanned, offsets), inBuf, isVirgin, metadataInfo); seq != pipeline.EventSeqIDError {
+						job.lastEventSeq = seq
+					}
 				}
 				// restore the line buffer
 				accumBuf = accumBuf[:0]
